@@ -233,13 +233,16 @@ func (rn *runner) do(op Op, res *OpResult) {
 		}
 		rn.st.fc[op.ID] = fc
 	case "css":
-		sc, err := loadScenario(op.Scenario)
-		if err != nil {
-			panic("harness: " + err.Error())
-		}
-		b, err := os.ReadFile(filepath.Join(sc.dir, op.File))
-		if err != nil {
-			panic("harness: " + err.Error())
+		b := []byte(op.Text)
+		if op.Text == "" {
+			sc, err := loadScenario(op.Scenario)
+			if err != nil {
+				panic("harness: " + err.Error())
+			}
+			b, err = os.ReadFile(filepath.Join(sc.dir, op.File))
+			if err != nil {
+				panic("harness: " + err.Error())
+			}
 		}
 		c, err := tree.NewCSSDefault(utils.InputString(string(b)))
 		if err != nil {
